@@ -57,6 +57,19 @@ class ProgProp(Prop):
     scripts_per_program = 4
     want_mc = None                   # None: mix; True/False
     asan_fraction = 0.0              # thorough: fraction of programs also built with clang++ ASan+UBSan
+    wrapper_stream = None            # (quick, thorough) sizes of the multi-client wrapper text stream
+
+    def add_wrapper_stream(self, ctx, res):
+        if not self.wrapper_stream:
+            return res
+        n = self.wrapper_stream[0 if ctx['tier'] == 'quick' else 1]
+        f, d, sh, cov = mc_wrapper_stream(ctx['rng'], n)
+        res['failures'] += f
+        res['disagreements'] += d
+        res['shapes'] += sh
+        res['evaluations'] += len(sh)
+        res['coverage'].update(cov)
+        return res
     assumptions = [
         'A-1: the Dezyne C++ runtime is mocked (harness/cxx/dzn/*.hh, public 2.17 API shape); statements about '
         'the compiled program are statements about program + mock',
@@ -150,8 +163,81 @@ class ProgProp(Prop):
                     shapes.append(case_hash([c['src'], c['cfg'], s]))
             finally:
                 p.cleanup()
-        return {'failures': failures, 'disagreements': disagreements, 'evaluations': nscripts, 'shapes': shapes,
+        return self.add_wrapper_stream(ctx, {
+                'failures': failures, 'disagreements': disagreements, 'evaluations': nscripts, 'shapes': shapes,
                 'known_hits': known_hits,
                 'coverage': {'programs': len(cases), 'programs_failed_to_build': build_failed, 'scripts': nscripts,
                              'script_ops': nops, 'traces_validated_against_impl': nscripts,
-                             'compile_wall_s': round(time.time() - t0, 1)}}
+                             'compile_wall_s': round(time.time() - t0, 1)}})
+
+
+# ---------------------------------------------------------------------------------------------
+# text-level stream over multi-client shells (C04, C11): also covers release events with a reply,
+# which the compiled domain has to leave out (known finding K-5)
+# ---------------------------------------------------------------------------------------------
+import re as _re
+
+
+def wrapper_bodies(cc_text):
+    """{event: [statement lines]} of the per-client wrappers `port.in.<ev> = [&, identifier]… { … };`"""
+    out = {}
+    for m in _re.finditer(r'^ *port\.in\.(\w+) = \[&, identifier\][^\n]*\{\n(.*?)\n *\};$', cc_text, _re.S | _re.M):
+        out[m.group(1)] = [l.strip() for l in m.group(2).split('\n')]
+    return out
+
+
+def wrapper_order_clauses(cc_text, mc):
+    """the step order the interleaving model (DznModel.Conc) is built on: the claim is forwarded to the
+    component and only a granting reply selects; the release is forwarded to the component and only
+    then is the client deselected — between a client's call of release and the component's handling
+    of it the component still regards the client as the holder, so its out-events must still arrive"""
+    failed = []
+    w = wrapper_bodies(cc_text)
+    port = mc['port']
+    for ev, sel in ((mc['claim'], '.Select(identifier)'), (mc['release'], '.Deselect(identifier)')):
+        if ev not in w:
+            failed.append(f'no per-client wrapper for the configured event {ev}')
+            continue
+        body = w[ev]
+        fwd = [i for i, l in enumerate(body) if f'.Arbitered().in.{ev}(' in l]
+        sl = [i for i, l in enumerate(body) if sel in l]
+        if len(fwd) != 1 or len(sl) != 1:
+            failed.append(f'wrapper of {ev}: expected one forwarded call and one {sel}: {body}')
+        elif fwd[0] > sl[0]:
+            failed.append(f'wrapper of {ev} runs {sel} before the call is forwarded to the component: {body}')
+    if mc['claim'] in w and not any('if (r == ' in l and '.Select(identifier)' in l for l in w[mc['claim']]):
+        failed.append(f'claim wrapper selects without testing the reply: {w[mc["claim"]]}')
+    return failed
+
+
+def mc_wrapper_stream(rng, n):
+    """n generated multi-client cases (any release event, valued ones included): full-text
+    correspondence with the model plus the wrapper-order clauses on the implementation's text"""
+    cases = []
+    tries = 0
+    while len(cases) < n and tries < 20 * n:
+        tries += 1
+        c = G.gen_case(rng, want_mc=True)
+        if c['cfg']['multiclient']:
+            cases.append(c)
+    stripped = [X.strip(c) for c in cases]
+    models = run_driver(stripped) if stripped else []
+    failures, disagreements, shapes = [], [], []
+    valued = 0
+    for c, s, m in zip(cases, stripped, models):
+        shapes.append(case_hash(['wrapper', s['src'], s['cfg']]))
+        impl = G.build_impl(s)
+        mc = s['cfg']['multiclient']
+        info = c['_info']
+        _, itf = X.port_events(info, mc['port'])
+        rel = next(e for e in itf['events'] if e['name'] == mc['release'])
+        valued += rel['_reply']['kind'] != 'void'
+        if canon(impl) != canon(m.get('model')):
+            disagreements.append({'case': s, 'impl': impl, 'model': m.get('model'), 'failed': [], 'noshrink': True})
+        if isinstance(impl, dict) and 'ok' in impl:
+            cc = next(f for f in impl['ok']['files'] if f['name'].endswith('.cc'))['contents']
+            failed = wrapper_order_clauses(cc, mc)
+            if failed:
+                failures.append({'case': s, 'impl': {'wrappers': wrapper_bodies(cc)}, 'model': None, 'failed': failed,
+                                 'noshrink': True})
+    return failures, disagreements, shapes, {'wrapper_cases': len(cases), 'wrapper_cases_valued_release': valued}
